@@ -15,7 +15,7 @@
    absent at that flush are empty). *)
 From Coq Require Import NArith List Permutation.
 From LV Require Import lib.Bytes model.CrashBase model.SyncedPool model.Flagged
-  proofs.CrashBaseProofs proofs.SyncedPoolProofs proofs.FlaggedProofs.
+  proofs.CrashBaseProofs proofs.SyncedPoolProofs proofs.FlaggedProofs proofs.FlaggedAnyIds.
 Import ListNotations.
 Local Open Scope N_scope.
 
@@ -34,6 +34,16 @@ Theorem C25_flagged_crash_consistent : forall fk h k l,
   lists_world l (crash (fr_log (run_flagged fk h)) k) ->
   crash_consistent fk (fr_recs (run_flagged fk h)) k (crash (fr_log (run_flagged fk h)) k) l.
 Proof. exact flagged_crash_consistent. Qed.
+
+(* Without any assumption on the flush IDs: the record may be that of the flush in progress at the
+   crash point (it is a record of the history; its position is bounded by the end of the log
+   instead of by k). *)
+Theorem C25_flagged_crash_consistent_any_ids : forall fk h k l,
+  history_avoids fk h = true ->
+  lists_world l (crash (fr_log (run_flagged fk h)) k) ->
+  crash_consistent fk (fr_recs (run_flagged fk h)) (max k (length (fr_log (run_flagged fk h))))
+                   (crash (fr_log (run_flagged fk h)) k) l.
+Proof. exact flagged_crash_consistent_any_ids. Qed.
 
 (* Recovery reads the verdict off the marks alone: an OK verdict means every surviving database
    carries exactly that (non-dirty) mark, "no flush" means no database carries a mark. *)
@@ -75,6 +85,7 @@ Proof. exact flagged_same_id_counterexample. Qed.
 
 Print Assumptions C25_pool_crash_consistent.
 Print Assumptions C25_flagged_crash_consistent.
+Print Assumptions C25_flagged_crash_consistent_any_ids.
 Print Assumptions C25_check_ok_some.
 Print Assumptions C25_check_ok_none.
 Print Assumptions C25_check_order_independent.
